@@ -522,7 +522,7 @@ def type_to_pedal_type(expected_type):
 
 
 def value_to_pedal_type(value):
-    if isinstance(unwrap_value(value), Exception):
+    if isinstance(unwrap_value(value), (Exception, SystemExit)):
         value_pedal_type = "An error"
     else:
         value_pedal_type = get_pedal_type_from_value(unwrap_value(value), evaluate)
